@@ -1,0 +1,62 @@
+//go:build verif
+
+package logging
+
+// Contracts for property C44: every log record is written as exactly one
+// neutralised line carrying its level (and scope) prefix. Comment-only file,
+// compiled only under the "verif" build tag; the "//@" lines are read by govc.
+
+// Bytes: 10 = LF, 13 = CR, 27 = ESC.
+
+// hasEOL(s): s contains a line terminator somewhere.
+//@ pred hasEOL(s) = exists k in 0..len(s) :: (s[k] == 10 || s[k] == 13)
+// oneLine(s): s is non-empty, ends in LF and has no other LF.
+//@ pred oneLine(s) = len(s) >= 1 && s[len(s)-1] == 10 && (forall k in 0..len(s)-1 :: s[k] != 10)
+// clean(s): no carriage return and no escape byte anywhere.
+//@ pred clean(s) = forall k in 0..len(s) :: (s[k] != 13 && s[k] != 27)
+// scopeOK(s): a logger scope is made of word characters and dots only.
+//@ pred scopeByte(c) = (48 <= c && c <= 57) || (65 <= c && c <= 90) || (97 <= c && c <= 122) || c == 95 || c == 46
+//@ pred scopeOK(s) = forall k in 0..len(s) :: scopeByte(s[k])
+
+//@ pkginv repattern(nameMatcher) == "^[[:word:]]+$"
+
+//@ func init
+
+//@ func NewLogger
+//@   ensures[scope] result != nil && scopeOK(result.scope)
+
+//@ func (*Logger).Sublogger
+//@   requires l != nil ==> scopeOK(l.scope)
+//@   ensures[scope] result != nil ==> scopeOK(result.scope)
+
+//@ func (*Logger).write
+//@   requires l != nil && scopeOK(l.scope)
+//@   requires[eol] hasEOL(message)
+//@   ensures[once] wcalls[l.writer] == old(wcalls[l.writer]) + 1
+//@   at call terminal.NeutralizeControlCharacters assert[truncated] oneLine(message)
+//@   at call terminal.NeutralizeControlCharacters assert[prefix] l.scope != "" ==> arg0 == tfmt(timestamp, timestampFormat) + " [" + runestr(level.abbreviation()) + "] [" + l.scope + "] " + message
+//@   at call terminal.NeutralizeControlCharacters assert[prefix] l.scope == "" ==> arg0 == tfmt(timestamp, timestampFormat) + " [" + runestr(level.abbreviation()) + "] " + message
+//@   at call io.Writer.Write assert[oneline] oneLine(arg1) && clean(arg1)
+//@   modifies wcalls[l.writer], accepted[l.writer]
+
+// log / logf: gated by the level; a record that passes the gate is written by
+// exactly one call of write (hence exactly one downstream Write of one line).
+//@ func (*Logger).log
+//@   requires l != nil ==> scopeOK(l.scope)
+//@   ensures[gate] l != nil && l.level >= level ==> wcalls[l.writer] == old(wcalls[l.writer]) + 1
+//@   ensures[quiet] l != nil && l.level < level ==> wcalls[l.writer] == old(wcalls[l.writer])
+
+//@ func (*Logger).logf
+//@   requires l != nil ==> scopeOK(l.scope)
+//@   ensures[gate] l != nil && l.level >= level ==> wcalls[l.writer] == old(wcalls[l.writer]) + 1
+//@   ensures[quiet] l != nil && l.level < level ==> wcalls[l.writer] == old(wcalls[l.writer])
+
+// The callback installed by Logger.Writer: called by the line splitter with a
+// line that has no LF (stream.LineProcessor.Callback:nolf). Whatever the line
+// contains (carriage returns, escapes, a forged log prefix), at most one
+// downstream Write happens and its payload is one clean LF-terminated line.
+//@ func (*Logger).Writer$1
+//@   requires l != nil && scopeOK(l.scope)
+//@   requires[nolf] forall i in 0..len(line) :: line[i] != 10
+//@   at call io.Writer.Write assert[oneline] oneLine(arg1) && clean(arg1)
+//@   ensures[atmostone] wcalls[l.writer] <= old(wcalls[l.writer]) + 1
